@@ -212,6 +212,41 @@ def action_kinds_of_arg(fn, du, arg, names):
   return out
 
 
+# Producers of gateway arguments that are not action constructors written in the same function,
+# one reason each.
+OPAQUE_PRODUCERS = {
+  "action_from_repr": "raw path: ApplyDocActions/ApplyUndoActions replay actions given as data",
+  "recalc_from_reverse_values": "returns a BulkUpdateRecord for the reverse column, or None",
+}
+
+
+def classify_gateway_arg(fn, du, call, names):
+  """(kinds, opaque producer or None) for a gateway call: the action type names its argument may
+  be, or the enumerated producer call it comes from. Anything else cannot be classified."""
+  arg = call.args[0]
+  kinds = action_kinds_of_arg(fn, du, arg, names)
+  if kinds:
+    return kinds, None
+  cands = [arg]
+  if isinstance(arg, ast.Name):
+    cands = E.local_defs(fn.node, arg.id)
+  prods = set()
+  for v in cands:
+    if isinstance(v, ast.Call):
+      d = dotted(v.func) if dotted(v.func) else (v.func.attr if isinstance(v.func, ast.Attribute)
+                                                 else None)
+      last = d.split(".")[-1] if d else None
+      if last in OPAQUE_PRODUCERS:
+        prods.add(last)
+        continue
+    prods.add(None)
+  if len(prods) == 1 and None not in prods:
+    return set(), prods.pop()
+  raise AnalysisError("%s: gateway argument %s is neither built from an action constructor in "
+                      "this function nor produced by an enumerated source"
+                      % (fn.qualname, short(arg)))
+
+
 # ------------------------------------------------------------------- metadata tables and handles
 def docmodel_handles(w):
   """{attribute of DocModel: metadata table id} read from DocModel.update_tables."""
